@@ -130,7 +130,14 @@ impl Gen<'_> {
             20..=33 => {
                 // read consumes the following data line(s)
                 u.reads_stdin = true;
-                let d: Vec<String> = (0..self.rng.range(1, 4)).map(|_| self.w()).collect();
+                // (some data words end in multi-byte characters: `read` assembles
+                // them from single-byte reads whatever the chunking)
+                let d: Vec<String> = (0..self.rng.range(1, 4))
+                    .map(|_| {
+                        let tail = *self.rng.pick(&["", "", "", "\u{e9}", "\u{3042}\u{3044}", "\u{1F600}"]);
+                        format!("{}{tail}", self.w())
+                    })
+                    .collect();
                 match self.rng.below(4) {
                     0 => {
                         let k = self.tell();
